@@ -1,7 +1,12 @@
-(* C18 -- proofs. *)
+(* C18 -- proofs: every format operation commutes with expansion to the full array,
+   over an arbitrary commutative ring. *)
 From Coq Require Import List Arith Bool ZArith Lia Ring.
 From Verif.C18 Require Import Model.
 Import ListNotations.
+
+(* ------------------------------------------------------------------ *)
+(* index arithmetic (no ring)                                          *)
+(* ------------------------------------------------------------------ *)
 
 Lemma wrap_in_range n i k : wrap n i = Some k -> k < n.
 Proof.
@@ -13,3 +18,776 @@ Proof.
     inversion H; subst. apply andb_true_iff in E2. destruct E2 as [A B].
     apply Z.leb_le in A. apply Z.ltb_lt in B. lia.
 Qed.
+
+(* Python semantics of a negative index: position i + n *)
+Lemma wrap_value n i k : wrap n i = Some k ->
+  (Z.of_nat k = if (i <? 0)%Z then i + Z.of_nat n else i)%Z.
+Proof.
+  unfold wrap. intros H.
+  destruct ((0 <=? i)%Z && (i <? Z.of_nat n)%Z) eqn:E1.
+  - inversion H; subst. apply andb_true_iff in E1. destruct E1 as [A B].
+    apply Z.leb_le in A. apply Z.ltb_lt in B.
+    destruct (i <? 0)%Z eqn:E; [apply Z.ltb_lt in E; lia|]. lia.
+  - destruct ((- Z.of_nat n <=? i)%Z && (i <? 0)%Z) eqn:E2; [|discriminate].
+    inversion H; subst. apply andb_true_iff in E2. destruct E2 as [A B].
+    apply Z.leb_le in A. rewrite B. apply Z.ltb_lt in B. lia.
+Qed.
+
+(* every position selected by range(start, stop, step) lies between start and stop *)
+Lemma range_list_bounds start stop step z :
+  In z (range_list start stop step) ->
+  ((0 < step)%Z -> (start <= z < stop)%Z) /\ ((step < 0)%Z -> (stop < z <= start)%Z).
+Proof.
+  unfold range_list, range_len. intros H. apply in_map_iff in H. destruct H as [k [<- Hk]].
+  apply in_seq in Hk. destruct Hk as [_ Hk]. simpl in Hk.
+  split; intros Hs.
+  - destruct (Z.ltb_spec 0 step); [|lia].
+    destruct (Z.ltb_spec start stop).
+    + assert (Hq : (step * ((stop - start - 1) / step) <= stop - start - 1)%Z) by (apply Z.mul_div_le; lia).
+      assert (Hq0 : (0 <= (stop - start - 1) / step)%Z) by (apply Z.div_pos; lia).
+      assert (Hk' : (Z.of_nat k <= (stop - start - 1) / step)%Z) by lia.
+      nia.
+    + simpl in Hk. lia.
+  - destruct (Z.ltb_spec 0 step); [lia|].
+    destruct (Z.ltb_spec stop start).
+    + assert (Hq : ((- step) * ((start - stop - 1) / (- step)) <= start - stop - 1)%Z) by (apply Z.mul_div_le; lia).
+      assert (Hq0 : (0 <= (start - stop - 1) / (- step))%Z) by (apply Z.div_pos; lia).
+      assert (Hk' : (Z.of_nat k <= (start - stop - 1) / (- step))%Z) by lia.
+      nia.
+    + simpl in Hk. lia.
+Qed.
+
+Lemma slice_adjust_bounds n start stop step a b :
+  (0 <= n)%Z -> slice_adjust n start stop step = (a, b) ->
+  ((0 < step)%Z -> (0 <= a /\ b <= n)%Z) /\ ((step < 0)%Z -> (a <= n - 1 /\ -1 <= b)%Z).
+Proof.
+  unfold slice_adjust. intros Hn H. inversion H; subst; clear H.
+  split; intros Hs.
+  - destruct (Z.ltb_spec step 0); [lia|]. split.
+    + destruct start as [s|]; [|lia]. destruct (Z.ltb_spec s 0); lia.
+    + destruct stop as [s|]; [|lia]. destruct (Z.ltb_spec s 0); lia.
+  - destruct (Z.ltb_spec step 0); [|lia]. split.
+    + destruct start as [s|]; [|lia]. destruct (Z.ltb_spec s 0); lia.
+    + destruct stop as [s|]; [|lia]. destruct (Z.ltb_spec s 0); lia.
+Qed.
+
+(* range(n)[start:stop:step] only selects existing positions, for every slice *)
+Lemma slice_range_in_range n start stop step rs k :
+  slice_range n start stop step = Ok rs -> In k rs -> k < n.
+Proof.
+  unfold slice_range. set (st := match step with None => 1%Z | Some s => s end).
+  destruct (Z.eqb_spec st 0); [discriminate|].
+  destruct (slice_adjust (Z.of_nat n) start stop st) as [a b] eqn:E.
+  intros H Hk. inversion H; subst; clear H.
+  apply in_map_iff in Hk. destruct Hk as [z [<- Hz]].
+  apply range_list_bounds in Hz.
+  apply slice_adjust_bounds in E; [|lia].
+  destruct (Z.lt_trichotomy st 0) as [Hs|[Hs|Hs]]; [|lia|].
+  - destruct Hz as [_ Hz], E as [_ E]. specialize (Hz Hs). specialize (E Hs). lia.
+  - destruct Hz as [Hz _], E as [E _]. specialize (Hz Hs). specialize (E Hs). lia.
+Qed.
+
+(* the default slice selects every position in order *)
+Lemma slice_full n : slice_range n None None None = Ok (seq 0 n).
+Proof.
+  unfold slice_range, slice_adjust, range_list, range_len; simpl.
+  f_equal. destruct n as [|n].
+  - reflexivity.
+  - destruct (Z.ltb_spec 0 (Z.of_nat (S n))); [|lia].
+    rewrite Z.div_1_r. replace (Z.to_nat (Z.of_nat (S n) - 0 - 1 + 1)) with (S n) by lia.
+    rewrite map_map. rewrite <- (map_id (seq 0 (S n))) at 2. apply map_ext. intros k. lia.
+Qed.
+
+Lemma wrap_all_in_range n : forall l rs k, wrap_all n l = Ok rs -> In k rs -> k < n.
+Proof.
+  induction l as [|i l IH]; intros rs k H Hk; simpl in H.
+  - inversion H; subst. destruct Hk.
+  - destruct (wrap n i) as [p|] eqn:E; [|discriminate].
+    destruct (wrap_all n l) as [r|]; simpl in H; [|discriminate].
+    inversion H; subst. destruct Hk as [<-|Hk]; [eapply wrap_in_range; eauto|eapply IH; eauto].
+Qed.
+
+(* _normalize_indices: one entry per axis, every selected position exists, whatever the expression *)
+Lemma norm_axis_in_range n ik rs b k : norm_axis n ik = Ok (rs, b) -> In k rs -> k < n.
+Proof.
+  destruct ik as [i|a s t|l]; simpl; intros H Hk.
+  - destruct (wrap n i) as [p|] eqn:E; [|discriminate]. inversion H; subst.
+    destruct Hk as [<-|[]]. eapply wrap_in_range; eauto.
+  - destruct (slice_range n a s t) as [r|] eqn:E; simpl in H; [|discriminate].
+    inversion H; subst. eapply slice_range_in_range; eauto.
+  - destruct (wrap_all n l) as [r|] eqn:E; simpl in H; [|discriminate].
+    inversion H; subst. eapply wrap_all_in_range; eauto.
+Qed.
+
+Lemma norm_axes_spec : forall shape II ax,
+  norm_axes shape II = Ok ax ->
+  length ax = length shape /\
+  Forall2 (fun n a => forall k, In k (fst a) -> k < n) shape ax.
+Proof.
+  induction shape as [|n shape IH]; intros II ax H; cbn [norm_axes] in H.
+  - inversion H; subst. split; [reflexivity|constructor].
+  - destruct II as [|ik II'].
+    + destruct (norm_axis n (ISlice None None None)) as [a|] eqn:E1; simpl in H; [|discriminate].
+      destruct (norm_axes shape []) as [r|] eqn:E2; simpl in H; [|discriminate].
+      inversion H; subst. destruct (IH _ _ E2) as [L F]. split; [simpl; congruence|].
+      constructor; [|exact F]. destruct a as [rs b]. intros k Hk. simpl in Hk. eapply norm_axis_in_range; eauto.
+    + destruct (norm_axis n ik) as [a|] eqn:E1; simpl in H; [|discriminate].
+      destruct (norm_axes shape II') as [r|] eqn:E2; simpl in H; [|discriminate].
+      inversion H; subst. destruct (IH _ _ E2) as [L F]. split; [simpl; congruence|].
+      constructor; [|exact F]. destruct a as [rs b]. intros k Hk. simpl in Hk. eapply norm_axis_in_range; eauto.
+Qed.
+
+Lemma normalize_indices_ok II shape ax :
+  normalize_indices II shape = Ok ax ->
+  length II <= length shape /\ length ax = length shape /\
+  Forall2 (fun n a => forall k, In k (fst a) -> k < n) shape ax.
+Proof.
+  unfold normalize_indices. destruct (Nat.ltb_spec (length shape) (length II)); [discriminate|].
+  intros H1. split; [lia|]. eapply norm_axes_spec; eauto.
+Qed.
+
+Lemma normalize_indices_too_many II shape :
+  length shape < length II -> normalize_indices II shape = Err ValueError.
+Proof.
+  unfold normalize_indices. intros H. destruct (Nat.ltb_spec (length shape) (length II)); [reflexivity|lia].
+Qed.
+
+
+Section RingProofs.
+Variable R : Type.
+Variables (rO rI : R) (radd rmul rsub : R -> R -> R) (ropp : R -> R).
+Variable Rth : ring_theory rO rI radd rmul rsub ropp (@eq R).
+Add Ring Rring : Rth.
+
+Local Notation "0" := rO.
+Local Notation "1" := rI.
+Local Infix "+" := radd.
+Local Infix "*" := rmul.
+Local Infix "-" := rsub.
+Local Notation "- x" := (ropp x).
+
+Local Notation rsum := (Model.rsum R rO radd).
+Local Notation sumn := (Model.sumn R rO radd).
+Local Notation mat := (Model.mat R).
+Local Notation full := (Model.full R).
+Local Notation me := (Model.me R).
+Local Notation mc := (Model.mc R).
+Local Notation mr := (Model.mr R).
+Local Notation fe := (Model.fe R).
+Local Notation fsh := (Model.fsh R).
+Local Notation mat_mul := (Model.mat_mul R rO radd rmul).
+Local Notation mat_hstack := (Model.mat_hstack R).
+Local Notation mat_neg := (Model.mat_neg R ropp).
+Local Notation mat_rows := (Model.mat_rows R).
+Local Notation cterm := (Model.cterm R rI rmul).
+Local Notation centry := (Model.centry R rO rI radd rmul).
+Local Notation crank := (Model.crank R).
+Local Notation canon_neg := (Model.canon_neg R ropp).
+Local Notation canon_add := (Model.canon_add R).
+Local Notation factors_nway := (Model.factors_nway R rO radd rmul).
+Local Notation tprod := (Model.tprod R rO radd rmul).
+Local Notation tentry := (Model.tentry R rO radd rmul).
+
+(* ------------------------------------------------------------------ *)
+(* finite sums                                                         *)
+(* ------------------------------------------------------------------ *)
+
+Lemma rsum_app l1 l2 : rsum (l1 ++ l2) = rsum l1 + rsum l2.
+Proof. induction l1 as [|x l IH]; simpl; [ring|rewrite IH; ring]. Qed.
+
+Lemma rsum_map_ext {A} (f g : A -> R) l :
+  (forall x, In x l -> f x = g x) -> rsum (map f l) = rsum (map g l).
+Proof.
+  induction l as [|x l IH]; simpl; intros H; [reflexivity|].
+  rewrite (H x (or_introl eq_refl)), IH; auto.
+Qed.
+
+Lemma rsum_map_add {A} (f g : A -> R) l :
+  rsum (map (fun x => f x + g x) l) = rsum (map f l) + rsum (map g l).
+Proof. induction l as [|x l IH]; simpl; [ring|rewrite IH; ring]. Qed.
+
+Lemma rsum_map_mul_l {A} c (f : A -> R) l :
+  rsum (map (fun x => c * f x) l) = c * rsum (map f l).
+Proof. induction l as [|x l IH]; simpl; [ring|rewrite IH; ring]. Qed.
+
+Lemma rsum_map_mul_r {A} c (f : A -> R) l :
+  rsum (map (fun x => f x * c) l) = rsum (map f l) * c.
+Proof. induction l as [|x l IH]; simpl; [ring|rewrite IH; ring]. Qed.
+
+Lemma rsum_map_opp {A} (f : A -> R) l :
+  rsum (map (fun x => - f x) l) = - rsum (map f l).
+Proof. induction l as [|x l IH]; simpl; [ring|rewrite IH; ring]. Qed.
+
+Lemma rsum_map_zero {A} (l : list A) : rsum (map (fun _ => 0) l) = 0.
+Proof. induction l as [|x l IH]; simpl; [reflexivity|rewrite IH; ring]. Qed.
+
+Lemma rsum_swap {A B} (f : A -> B -> R) l1 l2 :
+  rsum (map (fun x => rsum (map (fun y => f x y) l2)) l1)
+  = rsum (map (fun y => rsum (map (fun x => f x y) l1)) l2).
+Proof.
+  induction l1 as [|x l1 IH]; simpl.
+  - rewrite rsum_map_zero. reflexivity.
+  - rewrite IH, <- rsum_map_add. reflexivity.
+Qed.
+
+Lemma sumn_ext n f g : (forall j, j < n -> f j = g j) -> sumn n f = sumn n g.
+Proof.
+  intros H. unfold Model.sumn. apply rsum_map_ext. intros x Hx. apply in_seq in Hx. apply H. lia.
+Qed.
+
+Lemma map_seq_shift {A} (f : nat -> A) a b : forall s,
+  map f (seq (a + s) b) = map (fun j => f (a + j)%nat) (seq s b).
+Proof.
+  induction b; intros s; simpl; [reflexivity|]. f_equal.
+  replace (S (a + s)) with (a + S s)%nat by lia. apply IHb.
+Qed.
+
+Lemma sumn_split a b f : sumn (a + b) f = sumn a f + sumn b (fun j => f (a + j)%nat).
+Proof.
+  unfold Model.sumn. rewrite seq_app, map_app, rsum_app. f_equal.
+  simpl. rewrite <- (map_seq_shift f a b 0). rewrite Nat.add_0_r. reflexivity.
+Qed.
+
+Lemma sumn_zero n f : (forall j, j < n -> f j = 0) -> sumn n f = 0.
+Proof.
+  intros H. rewrite (sumn_ext n f (fun _ => 0) H). unfold Model.sumn. apply rsum_map_zero.
+Qed.
+
+Lemma sumn_add n f g : sumn n (fun j => f j + g j) = sumn n f + sumn n g.
+Proof. unfold Model.sumn. apply rsum_map_add. Qed.
+
+Lemma sumn_mul_l n c f : sumn n (fun j => c * f j) = c * sumn n f.
+Proof. unfold Model.sumn. apply rsum_map_mul_l. Qed.
+
+Lemma sumn_mul_r n c f : sumn n (fun j => f j * c) = sumn n f * c.
+Proof. unfold Model.sumn. apply rsum_map_mul_r. Qed.
+
+Lemma sumn_opp n f : sumn n (fun j => - f j) = - sumn n f.
+Proof. unfold Model.sumn. apply rsum_map_opp. Qed.
+
+Lemma sumn_swap n m f :
+  sumn n (fun i => sumn m (fun j => f i j)) = sumn m (fun j => sumn n (fun i => f i j)).
+Proof. unfold Model.sumn. apply rsum_swap. Qed.
+
+(* sum against a Kronecker delta *)
+Lemma sumn_delta n j g : j < n -> sumn n (fun j' => if (j =? j')%nat then g j' else 0) = g j.
+Proof.
+  intros Hj. replace n with (j + (1 + (n - j - 1)))%nat by lia.
+  rewrite sumn_split, sumn_split.
+  rewrite sumn_zero.
+  2:{ intros k Hk. destruct (Nat.eqb_spec j k); [lia|reflexivity]. }
+  rewrite (sumn_zero (n - j - 1)).
+  2:{ intros k Hk. destruct (Nat.eqb_spec j (j + (1 + k))); [lia|reflexivity]. }
+  unfold Model.sumn. simpl. rewrite Nat.add_0_r, Nat.eqb_refl. ring.
+Qed.
+
+(* ------------------------------------------------------------------ *)
+(* CanonicalTensor                                                     *)
+(* ------------------------------------------------------------------ *)
+
+(* all factor matrices have the same number of columns (asserted by __init__, tensor.py:706) *)
+Definition uniform (Xs : list mat) (rk : nat) : Prop := Forall (fun X => mc X = rk) Xs.
+
+Lemma cterm_add A : forall B idx r ra,
+  uniform A ra -> length A = length B ->
+  cterm (canon_add A B) idx r = if (r <? ra)%nat then cterm A idx r else cterm B idx (r - ra).
+Proof.
+  unfold Model.canon_add.
+  induction A as [|X A IH]; intros [|Y B] idx r ra HA HL; simpl in *; try discriminate.
+  - destruct (r <? ra)%nat; reflexivity.
+  - inversion HA as [|? ? HX HA']; subst. destruct idx as [|i idx]; simpl.
+    + destruct (r <? mc X)%nat; reflexivity.
+    + rewrite (IH B idx r (mc X)) by (auto; lia).
+      destruct (r <? mc X)%nat; reflexivity.
+Qed.
+
+Lemma canon_add_spec A B idx ra rb :
+  uniform A ra -> uniform B rb -> length A = length B -> A <> [] ->
+  centry (canon_add A B) idx = centry A idx + centry B idx.
+Proof.
+  intros HA HB HL Hne. unfold Model.centry.
+  destruct A as [|X A]; [congruence|]. destruct B as [|Y B]; [discriminate|].
+  assert (EX : mc X = ra) by (inversion HA; auto).
+  assert (EY : mc Y = rb) by (inversion HB; auto).
+  replace (crank (canon_add (X :: A) (Y :: B))) with (ra + rb)%nat by (simpl; congruence).
+  replace (crank (X :: A)) with ra by (simpl; congruence).
+  replace (crank (Y :: B)) with rb by (simpl; congruence).
+  rewrite sumn_split. f_equal.
+  - apply sumn_ext. intros j Hj. rewrite (cterm_add _ _ _ _ ra HA HL).
+    destruct (Nat.ltb_spec j ra); [reflexivity|lia].
+  - apply sumn_ext. intros j Hj. rewrite (cterm_add _ _ _ _ ra HA HL).
+    destruct (Nat.ltb_spec (ra + j) ra); [lia|]. f_equal. lia.
+Qed.
+
+Lemma canon_neg_spec A idx :
+  length idx = length A -> centry (canon_neg A) idx = - centry A idx.
+Proof.
+  intros HL. destruct A as [|X A]; unfold Model.centry; simpl.
+  - unfold Model.sumn; simpl. ring.
+  - destruct idx as [|i idx]; [discriminate|]. rewrite <- sumn_opp.
+    apply sumn_ext. intros j _. simpl. ring.
+Qed.
+
+(* row selection X[Ik] of every factor (the first half of __getitem__, tensor.py:842) *)
+Definition sel_idx (rss : list (list nat)) (idx : list nat) : list nat :=
+  map (fun p => nth (snd p) (fst p) 0%nat) (combine rss idx).
+
+Lemma cterm_rows A : forall rss idx r,
+  cterm (map (fun p => mat_rows (fst p) (snd p)) (combine A rss)) idx r = cterm (firstn (length rss) A) (sel_idx rss idx) r.
+Proof.
+  induction A as [|X A IH]; intros rss idx r; simpl.
+  - destruct rss; reflexivity.
+  - destruct rss as [|rs rss]; simpl; [reflexivity|].
+    destruct idx as [|i idx]; simpl; [reflexivity|]. rewrite IH. reflexivity.
+Qed.
+
+Lemma canon_rows_spec A rss idx :
+  length rss = length A ->
+  centry (map (fun p => mat_rows (fst p) (snd p)) (combine A rss)) idx = centry A (sel_idx rss idx).
+Proof.
+  intros HL. unfold Model.centry.
+  replace (crank (map (fun p => mat_rows (fst p) (snd p)) (combine A rss))) with (crank A).
+  2:{ destruct A, rss; simpl in *; try discriminate; reflexivity. }
+  apply sumn_ext. intros j _. rewrite cterm_rows, HL, firstn_all. reflexivity.
+Qed.
+
+(* ------------------------------------------------------------------ *)
+(* apply_tprod is linear in the array                                  *)
+(* ------------------------------------------------------------------ *)
+
+Lemma tprod_ext Bs : forall f g idx, (forall J, f J = g J) -> tprod Bs f idx = tprod Bs g idx.
+Proof.
+  induction Bs as [|ob Bs IH]; intros f g idx H; simpl; [apply H|].
+  destruct idx as [|i idx]; [apply H|]. destruct ob as [B|].
+  - apply sumn_ext. intros j _. f_equal. apply IH. intros; apply H.
+  - apply IH. intros; apply H.
+Qed.
+
+Lemma tprod_add Bs : forall f g idx,
+  tprod Bs (fun J => f J + g J) idx = tprod Bs f idx + tprod Bs g idx.
+Proof.
+  induction Bs as [|ob Bs IH]; intros f g idx; simpl; [reflexivity|].
+  destruct idx as [|i idx]; [reflexivity|]. destruct ob as [B|].
+  - rewrite <- sumn_add. apply sumn_ext. intros j _. rewrite IH. ring.
+  - apply IH.
+Qed.
+
+Lemma tprod_scale Bs : forall c f idx, tprod Bs (fun J => c * f J) idx = c * tprod Bs f idx.
+Proof.
+  induction Bs as [|ob Bs IH]; intros c f idx; simpl; [reflexivity|].
+  destruct idx as [|i idx]; [reflexivity|]. destruct ob as [B|].
+  - rewrite <- sumn_mul_l. apply sumn_ext. intros j _. rewrite IH. ring.
+  - apply IH.
+Qed.
+
+Lemma tprod_opp Bs f idx : tprod Bs (fun J => - f J) idx = - tprod Bs f idx.
+Proof.
+  rewrite (tprod_ext Bs _ (fun J => (- (1)) * f J)) by (intros; ring).
+  rewrite tprod_scale. ring.
+Qed.
+
+Lemma tprod_sub Bs f g idx : tprod Bs (fun J => f J - g J) idx = tprod Bs f idx - tprod Bs g idx.
+Proof.
+  rewrite (tprod_ext Bs _ (fun J => f J + (fun J => - g J) J)) by (intros; ring).
+  rewrite tprod_add, tprod_opp. ring.
+Qed.
+
+Lemma tprod_zero Bs : forall f idx, (forall J, f J = 0) -> tprod Bs f idx = 0.
+Proof.
+  intros f idx H. rewrite (tprod_ext Bs f (fun J => 0 * 0)) by (intros; rewrite H; ring).
+  rewrite tprod_scale. ring.
+Qed.
+
+Lemma tprod_sumn Bs : forall n (g : nat -> list nat -> R) idx,
+  tprod Bs (fun J => sumn n (fun r => g r J)) idx = sumn n (fun r => tprod Bs (g r) idx).
+Proof.
+  induction Bs as [|ob Bs IH]; intros n g idx; simpl; [reflexivity|].
+  destruct idx as [|i idx]; [reflexivity|]. destruct ob as [B|].
+  - rewrite sumn_swap. apply sumn_ext. intros j _. rewrite IH, <- sumn_mul_l. reflexivity.
+  - apply IH.
+Qed.
+
+(* nway_prod of a canonical tensor = apply_tprod of its expansion (tensor.py:772-791) *)
+Lemma cterm_nway A : forall Bs idx r,
+  length Bs = length A -> length idx = length A ->
+  cterm (map (fun p => match fst p with Some B => mat_mul B (snd p) | None => snd p end) (combine Bs A)) idx r
+  = tprod Bs (fun J => cterm A J r) idx.
+Proof.
+  induction A as [|X A IH]; intros [|ob Bs] [|i idx] r HB HI; simpl in *; try discriminate; try reflexivity.
+  destruct ob as [B|].
+  - rewrite IH by lia. unfold Model.mat_mul; simpl. rewrite <- sumn_mul_r. apply sumn_ext. intros j _.
+    rewrite tprod_scale. ring.
+  - rewrite IH by lia. rewrite tprod_scale. reflexivity.
+Qed.
+
+Lemma crank_nway A : forall Bs, length Bs = length A ->
+  crank (map (fun p => match fst p with Some B => mat_mul B (snd p) | None => snd p end) (combine Bs A)) = crank A.
+Proof. destruct A; intros [|[B|] Bs] H; simpl in *; try discriminate; reflexivity. Qed.
+
+Lemma canon_nway_spec A Bs idx :
+  length Bs <= length A -> length idx = length A ->
+  centry (factors_nway Bs A) idx = tprod (pad_ops R Bs (length A)) (centry A) idx.
+Proof.
+  intros HB HI. unfold Model.factors_nway, Model.centry.
+  assert (HL : length (pad_ops R Bs (length A)) = length A).
+  { unfold pad_ops. rewrite app_length, repeat_length. lia. }
+  rewrite crank_nway by exact HL. rewrite tprod_sumn.
+  apply sumn_ext. intros j _. apply cterm_nway; assumption.
+Qed.
+
+
+(* ------------------------------------------------------------------ *)
+(* TuckerTensor                                                        *)
+(* ------------------------------------------------------------------ *)
+Local Notation join_U := (Model.join_U R).
+Local Notation join_X1 := (Model.join_X1 R rO).
+Local Notation join_X2 := (Model.join_X2 R rO).
+Local Notation full_add := (Model.full_add R radd).
+Local Notation full_sub := (Model.full_sub R rsub).
+Local Notation full_neg := (Model.full_neg R ropp).
+Local Notation diag_core := (Model.diag_core R rO rI).
+
+Lemma tucker_neg_spec Us X idx : tentry Us (full_neg X) idx = - tentry Us X idx.
+Proof. unfold Model.tentry, Model.full_neg; simpl. apply tprod_opp. Qed.
+
+(* nway_prod of a Tucker tensor = apply_tprod of its expansion (tensor.py:954-973) *)
+Lemma tprod_compose Us : forall Bs f idx,
+  length Bs = length Us -> length idx = length Us ->
+  tprod (map Some (map (fun p => match fst p with Some B => mat_mul B (snd p) | None => snd p end) (combine Bs Us))) f idx
+  = tprod Bs (tprod (map Some Us) f) idx.
+Proof.
+  induction Us as [|U Us IH]; intros [|ob Bs] f [|i idx] HB HI; simpl in *; try discriminate; try reflexivity.
+  destruct ob as [B|].
+  - unfold Model.mat_mul at 1; simpl.
+    rewrite (sumn_ext _ _ (fun j => sumn (mc B) (fun k => me B i k * (me U k j *
+              tprod Bs (tprod (map Some Us) (fun rest => f (j :: rest))) idx)))).
+    2:{ intros j _. rewrite IH by lia. rewrite <- sumn_mul_r. apply sumn_ext. intros k _. ring. }
+    rewrite sumn_swap. apply sumn_ext. intros k _. rewrite sumn_mul_l. f_equal.
+    rewrite (sumn_ext _ _ (fun j => tprod Bs (fun rest => me U k j * tprod (map Some Us) (fun r2 => f (j :: r2)) rest) idx))
+      by (intros; rewrite tprod_scale; reflexivity).
+    rewrite <- (tprod_sumn Bs (mc U) (fun j rest => me U k j * tprod (map Some Us) (fun r2 => f (j :: r2)) rest)).
+    apply tprod_ext. reflexivity.
+  - rewrite (sumn_ext _ _ (fun j => tprod Bs (fun rest => me U i j * tprod (map Some Us) (fun r2 => f (j :: r2)) rest) idx))
+      by (intros; rewrite IH by lia; rewrite tprod_scale; reflexivity).
+    rewrite <- (tprod_sumn Bs (mc U) (fun j rest => me U i j * tprod (map Some Us) (fun r2 => f (j :: r2)) rest)).
+    apply tprod_ext. reflexivity.
+Qed.
+
+Lemma tucker_nway_spec Us X Bs idx :
+  length Bs <= length Us -> length idx = length Us ->
+  tentry (factors_nway Bs Us) X idx = tprod (pad_ops R Bs (length Us)) (tentry Us X) idx.
+Proof.
+  intros HB HI. unfold Model.tentry, Model.factors_nway.
+  assert (HL : length (pad_ops R Bs (length Us)) = length Us).
+  { unfold pad_ops. rewrite app_length, repeat_length. lia. }
+  rewrite tprod_compose by assumption.
+  apply tprod_ext. reflexivity.
+Qed.
+
+(* join_tucker_bases, tensor.py:1030-1046: both tensors are unchanged in the joint basis *)
+Lemma sub_idx_zeros : forall (l : list nat) idx, sub_idx idx (map (fun _ => 0%nat) l) = idx.
+Proof.
+  induction l as [|x l IH]; intros [|i idx]; simpl; try reflexivity.
+  rewrite IH. f_equal. lia.
+Qed.
+
+Lemma all_ge_zeros : forall (l : list nat) idx, all_ge idx (map (fun _ => 0%nat) l) = true.
+Proof. induction l as [|x l IH]; intros [|i idx]; simpl; auto. Qed.
+
+Lemma join1_gen U1 : forall U2 f idx,
+  length U2 = length U1 -> length idx = length U1 ->
+  tprod (map Some (join_U U1 U2)) (fun J => if all_lt J (map mc U1) then f J else 0) idx
+  = tprod (map Some U1) f idx.
+Proof.
+  unfold Model.join_U.
+  induction U1 as [|A U1 IH]; intros [|B U2] f [|i idx] H2 HI; simpl in *; try discriminate; try reflexivity.
+  rewrite sumn_split.
+  rewrite (sumn_zero (mc B)).
+  2:{ intros j Hj. destruct (Nat.ltb_spec (mc A + j) (mc A)); [lia|].
+      rewrite tprod_zero; [ring|]. intros J. reflexivity. }
+  rewrite (sumn_ext (mc A) _ (fun j => me A i j * tprod (map Some U1) (fun rest => f (j :: rest)) idx)).
+  - ring.
+  - intros j Hj. destruct (Nat.ltb_spec j (mc A)); [|lia]. f_equal.
+    rewrite <- (IH U2) by lia. apply tprod_ext. intros J. reflexivity.
+Qed.
+
+Lemma join2_gen U1 : forall U2 f idx,
+  length U2 = length U1 -> length idx = length U1 ->
+  tprod (map Some (join_U U1 U2))
+        (fun J => if all_ge J (map mc U1) && all_lt (sub_idx J (map mc U1)) (map mc U2)
+                  then f (sub_idx J (map mc U1)) else 0) idx
+  = tprod (map Some U2) f idx.
+Proof.
+  unfold Model.join_U.
+  induction U1 as [|A U1 IH]; intros [|B U2] f [|i idx] H2 HI; simpl in *; try discriminate; try reflexivity.
+  rewrite sumn_split.
+  rewrite (sumn_zero (mc A)).
+  2:{ intros j Hj. destruct (Nat.ltb_spec j (mc A)); [|lia].
+      rewrite tprod_zero; [ring|]. intros J.
+      destruct (Nat.leb_spec (mc A) j); [lia|]. reflexivity. }
+  rewrite (sumn_ext (mc B) _ (fun j => me B i j * tprod (map Some U2) (fun rest => f (j :: rest)) idx)).
+  - ring.
+  - intros j Hj. destruct (Nat.ltb_spec (mc A + j) (mc A)); [lia|].
+    replace (mc A + j - mc A)%nat with j by lia. f_equal.
+    rewrite <- (IH U2) by lia. apply tprod_ext. intros J.
+    destruct (Nat.leb_spec (mc A) (mc A + j)); [|lia].
+    replace (mc A + j - mc A)%nat with j by lia.
+    destruct (Nat.ltb_spec j (mc B)); [|lia]. reflexivity.
+Qed.
+
+(* the core of a Tucker tensor has one axis of length mc U_k per factor *)
+Definition core_ok (Us : list mat) (X : full) : Prop := fsh X = map mc Us.
+
+Lemma join_bases_1 U1 X1 U2 X2 idx :
+  core_ok U1 X1 -> length U2 = length U1 -> length idx = length U1 ->
+  tentry (join_U U1 U2) (join_X1 X1 X2) idx = tentry U1 X1 idx.
+Proof.
+  intros H1 HL HI. unfold Model.tentry, Model.join_X1, Model.full_pad; simpl.
+  rewrite <- (join1_gen U1 U2) by assumption. apply tprod_ext. intros J.
+  rewrite all_ge_zeros, sub_idx_zeros, H1. reflexivity.
+Qed.
+
+Lemma join_bases_2 U1 X1 U2 X2 idx :
+  core_ok U1 X1 -> core_ok U2 X2 -> length U2 = length U1 -> length idx = length U1 ->
+  tentry (join_U U1 U2) (join_X2 X1 X2) idx = tentry U2 X2 idx.
+Proof.
+  intros H1 H2 HL HI. unfold Model.tentry, Model.join_X2, Model.full_pad; simpl.
+  rewrite <- (join2_gen U1 U2) by assumption. apply tprod_ext. intros J.
+  unfold core_ok in H1, H2. rewrite ?H1, ?H2. reflexivity.
+Qed.
+
+Lemma tucker_add_spec U1 X1 U2 X2 idx :
+  core_ok U1 X1 -> core_ok U2 X2 -> length U2 = length U1 -> length idx = length U1 ->
+  tentry (join_U U1 U2) (full_add (join_X1 X1 X2) (join_X2 X1 X2)) idx
+  = tentry U1 X1 idx + tentry U2 X2 idx.
+Proof.
+  intros. rewrite <- (join_bases_1 U1 X1 U2 X2 idx), <- (join_bases_2 U1 X1 U2 X2 idx) by assumption.
+  unfold Model.tentry, Model.full_add; simpl. apply tprod_add.
+Qed.
+
+Lemma tucker_sub_spec U1 X1 U2 X2 idx :
+  core_ok U1 X1 -> core_ok U2 X2 -> length U2 = length U1 -> length idx = length U1 ->
+  tentry (join_U U1 U2) (full_sub (join_X1 X1 X2) (join_X2 X1 X2)) idx
+  = tentry U1 X1 idx - tentry U2 X2 idx.
+Proof.
+  intros. rewrite <- (join_bases_1 U1 X1 U2 X2 idx), <- (join_bases_2 U1 X1 U2 X2 idx) by assumption.
+  unfold Model.tentry, Model.full_sub; simpl. apply tprod_sub.
+Qed.
+
+(* TuckerTensor.from_tensor(CanonicalTensor), tensor.py:893-896 *)
+Lemma diag_tail Xs : forall rk j idx,
+  uniform Xs rk -> j < rk -> length idx = length Xs ->
+  tprod (map Some Xs) (fun rest => if all_same j rest then 1 else 0) idx = cterm Xs idx j.
+Proof.
+  induction Xs as [|Y Ys IH]; intros rk j [|i idx] HU Hj HI; simpl in *; try discriminate; try reflexivity.
+  inversion HU as [|? ? HY HU']; subst.
+  rewrite (sumn_ext _ _ (fun j' => if (j =? j')%nat then me Y i j' * cterm Ys idx j' else 0)).
+  - rewrite sumn_delta by assumption. reflexivity.
+  - intros j' Hj'. destruct (Nat.eqb_spec j j') as [->|Hne]; simpl.
+    + f_equal. apply (IH (mc Y)); auto.
+    + rewrite tprod_zero; [ring|reflexivity].
+Qed.
+
+Lemma canon_to_tucker_spec Xs idx :
+  uniform Xs (crank Xs) -> Xs <> [] -> length idx = length Xs ->
+  tentry Xs (diag_core (length Xs) (crank Xs)) idx = centry Xs idx.
+Proof.
+  intros HU Hne HI. destruct Xs as [|X Xs]; [congruence|].
+  destruct idx as [|i idx]; [discriminate|].
+  unfold Model.tentry, Model.centry; simpl.
+  apply sumn_ext. intros j Hj. f_equal.
+  inversion HU; subst. apply (diag_tail Xs (mc X)); auto.
+Qed.
+
+(* ------------------------------------------------------------------ *)
+(* CanonicalOperator                                                   *)
+(* ------------------------------------------------------------------ *)
+Local Notation kterm := (Model.kterm R rI rmul).
+Local Notation kentry := (Model.kentry R rO rI radd rmul).
+Local Notation canop_T := (Model.canop_T R).
+Local Notation canop_add := (Model.canop_add R).
+Local Notation canop_neg := (Model.canop_neg R ropp).
+Local Notation canop_mul := (Model.canop_mul R rO radd rmul).
+Local Notation canop_kron := (Model.canop_kron R).
+Local Notation canop_apply_entry := (Model.canop_apply_entry R rO radd rmul).
+
+Lemma kterm_T term : forall I J, kterm (map (Model.mat_T R) term) I J = kterm term J I.
+Proof.
+  induction term as [|A term IH]; intros [|i I] [|j J]; simpl; try reflexivity. rewrite IH. reflexivity.
+Qed.
+
+Lemma canop_T_spec Op I J : kentry (canop_T Op) I J = kentry Op J I.
+Proof.
+  unfold Model.kentry, Model.canop_T. rewrite map_map. apply rsum_map_ext. intros t _. apply kterm_T.
+Qed.
+
+Lemma canop_add_spec A B I J : kentry (canop_add A B) I J = kentry A I J + kentry B I J.
+Proof. unfold Model.kentry, Model.canop_add. rewrite map_app, rsum_app. reflexivity. Qed.
+
+Lemma canop_neg_spec A I J :
+  Forall (fun t => t <> []) A -> I <> [] -> J <> [] -> kentry (canop_neg A) I J = - kentry A I J.
+Proof.
+  intros HA HI HJ. unfold Model.kentry, Model.canop_neg. rewrite map_map, <- rsum_map_opp.
+  apply rsum_map_ext. intros t Ht. rewrite Forall_forall in HA. specialize (HA t Ht).
+  destruct t as [|X t]; [congruence|]. destruct I as [|i I]; [congruence|]. destruct J as [|j J]; [congruence|].
+  simpl. ring.
+Qed.
+
+(* the Kronecker product of matrix products is the product of the Kronecker products, entry-wise:
+   sum over the intermediate multi-index K of kterm t1 I K * kterm t2 K J *)
+Fixpoint ksum (dims : list nat) (f : list nat -> R) : R :=
+  match dims with
+  | [] => f []
+  | n :: dims' => sumn n (fun k => ksum dims' (fun rest => f (k :: rest)))
+  end.
+
+Lemma ksum_ext dims : forall f g, (forall K, f K = g K) -> ksum dims f = ksum dims g.
+Proof.
+  induction dims as [|n dims IH]; intros f g H; simpl; [apply H|].
+  apply sumn_ext. intros k _. apply IH. intros; apply H.
+Qed.
+
+Lemma ksum_scale dims : forall c f, ksum dims (fun K => c * f K) = c * ksum dims f.
+Proof.
+  induction dims as [|n dims IH]; intros c f; simpl; [reflexivity|].
+  rewrite <- sumn_mul_l. apply sumn_ext. intros k _. apply IH.
+Qed.
+
+Lemma ksum_add dims : forall f g, ksum dims (fun K => f K + g K) = ksum dims f + ksum dims g.
+Proof.
+  induction dims as [|n dims IH]; intros f g; simpl; [reflexivity|].
+  rewrite <- sumn_add. apply sumn_ext. intros k _. apply IH.
+Qed.
+
+Lemma ksum_rsum {A} dims : forall (l : list A) (g : A -> list nat -> R),
+  ksum dims (fun K => rsum (map (fun x => g x K) l)) = rsum (map (fun x => ksum dims (g x)) l).
+Proof.
+  intros l g. induction l as [|x l IH]; simpl.
+  - rewrite (ksum_ext dims _ (fun K => 0 * 0)) by (intros; ring). rewrite ksum_scale. ring.
+  - rewrite ksum_add, IH. reflexivity.
+Qed.
+
+Lemma kterm_alldot t1 : forall t2 I J,
+  length t2 = length t1 -> length I = length t1 -> length J = length t1 ->
+  kterm (Model.alldot R rO radd rmul t1 t2) I J
+  = ksum (map mc t1) (fun K => kterm t1 I K * kterm t2 K J).
+Proof.
+  unfold Model.alldot.
+  induction t1 as [|A t1 IH]; intros [|B t2] [|i I] [|j J] H2 HI HJ; simpl in *; try discriminate.
+  - ring.
+  - rewrite IH by lia. unfold Model.mat_mul; simpl.
+    rewrite <- sumn_mul_r. apply sumn_ext. intros k _.
+    rewrite <- ksum_scale. apply ksum_ext. intros K. ring.
+Qed.
+
+(* composition, tensor.py:1224-1231: asmatrix(A*B) = asmatrix(A) . asmatrix(B), entry-wise *)
+Lemma canop_mul_spec A B I J dims :
+  Forall (fun t => map mc t = dims) A ->
+  Forall (fun t => length t = length dims) B ->
+  length I = length dims -> length J = length dims ->
+  kentry (canop_mul A B) I J = ksum dims (fun K => kentry A I K * kentry B K J).
+Proof.
+  intros HA HB HI HJ. unfold Model.kentry, Model.canop_mul.
+  rewrite (ksum_ext dims _ (fun K => rsum (map (fun t1 => rsum (map (fun t2 => kterm t1 I K * kterm t2 K J) B)) A))).
+  2:{ intros K. rewrite <- rsum_map_mul_r. apply rsum_map_ext. intros t1 _.
+      rewrite <- rsum_map_mul_l. reflexivity. }
+  rewrite ksum_rsum.
+  induction A as [|t1 A IHA]; simpl; [reflexivity|].
+  inversion HA as [|? ? Ht1 HA']; subst.
+  rewrite map_app, rsum_app, IHA by assumption. f_equal.
+  rewrite map_map, ksum_rsum. apply rsum_map_ext. intros t2 Ht2.
+  rewrite Forall_forall in HB. specialize (HB t2 Ht2). rewrite map_length in *.
+  apply kterm_alldot; lia.
+Qed.
+
+(* Kronecker extension, tensor.py:1233-1237 *)
+Lemma kterm_app t1 : forall t2 I1 I2 J1 J2,
+  length I1 = length t1 -> length J1 = length t1 ->
+  kterm (t1 ++ t2) (I1 ++ I2) (J1 ++ J2) = kterm t1 I1 J1 * kterm t2 I2 J2.
+Proof.
+  induction t1 as [|A t1 IH]; intros t2 [|i I1] I2 [|j J1] J2 HI HJ; simpl in *; try discriminate.
+  - ring.
+  - rewrite IH by lia. ring.
+Qed.
+
+Lemma canop_kron_spec A B I1 I2 J1 J2 d :
+  Forall (fun t => length t = d) A -> length I1 = d -> length J1 = d ->
+  kentry (canop_kron A B) (I1 ++ I2) (J1 ++ J2) = kentry A I1 J1 * kentry B I2 J2.
+Proof.
+  intros HA HI HJ. unfold Model.kentry, Model.canop_kron.
+  induction A as [|t1 A IHA]; simpl; [ring|].
+  inversion HA as [|? ? Ht1 HA']; subst.
+  rewrite map_app, rsum_app, IHA by assumption.
+  rewrite map_map.
+  rewrite (rsum_map_ext _ (fun t2 => kterm t1 I1 J1 * kterm t2 I2 J2)).
+  - rewrite rsum_map_mul_l. ring.
+  - intros t2 _. apply kterm_app; lia.
+Qed.
+
+(* application, tensor.py:1239-1242: (A X)[I] = sum_J asmatrix(A)[I,J] X[J] *)
+Lemma tprod_kterm term : forall f I,
+  length I = length term ->
+  tprod (map Some term) f I = ksum (map mc term) (fun J => kterm term I J * f J).
+Proof.
+  induction term as [|A term IH]; intros f [|i I] HI; simpl in *; try discriminate.
+  - ring.
+  - apply sumn_ext. intros j _. rewrite IH by lia. rewrite <- ksum_scale.
+    apply ksum_ext. intros J. ring.
+Qed.
+
+Lemma canop_apply_spec Op f I dims :
+  Forall (fun t => map mc t = dims) Op -> length I = length dims ->
+  canop_apply_entry Op f I = ksum dims (fun J => kentry Op I J * f J).
+Proof.
+  intros HO HI. unfold Model.canop_apply_entry, Model.kentry.
+  rewrite (ksum_ext dims _ (fun J => rsum (map (fun t => kterm t I J * f J) Op))).
+  2:{ intros J. rewrite rsum_map_mul_r. reflexivity. }
+  rewrite ksum_rsum. apply rsum_map_ext. intros t Ht.
+  rewrite Forall_forall in HO. specialize (HO t Ht). subst dims.
+  apply tprod_kterm. rewrite map_length in HI. exact HI.
+Qed.
+
+(* ------------------------------------------------------------------ *)
+(* cross approximation                                                 *)
+(* ------------------------------------------------------------------ *)
+Local Notation rank_1_update := (Model.rank_1_update R radd rmul).
+Local Notation aca_step := (Model.aca_step R radd rmul rsub).
+Local Notation aca_E_row := (Model.aca_E_row R rsub).
+Local Notation aca_col := (Model.aca_col R rsub).
+
+Lemma rank1_update_entry X alpha u v i j :
+  me (rank_1_update X alpha u v) i j = me X i j + alpha * (u i * v j).
+Proof. simpl. ring. Qed.
+
+(* after a cross step with pivot (i, j0) the residual A - X vanishes on row i and column j0;
+   alpha is 1 / E_row[j0] *)
+Lemma aca_step_row A X i j0 alpha j :
+  alpha * aca_E_row A X i j0 = 1 ->
+  me A i j - me (aca_step A X i j0 alpha) i j = 0.
+Proof.
+  unfold Model.aca_step, Model.aca_E_row, Model.aca_col; simpl. intros H.
+  transitivity ((me A i j - me X i j) * (1 - alpha * (me X i j0 - me A i j0))); [ring|].
+  rewrite H. ring.
+Qed.
+
+Lemma aca_step_col A X i j0 alpha a :
+  alpha * aca_E_row A X i j0 = 1 ->
+  me A a j0 - me (aca_step A X i j0 alpha) a j0 = 0.
+Proof.
+  unfold Model.aca_step, Model.aca_E_row, Model.aca_col; simpl. intros H.
+  transitivity ((me A a j0 - me X a j0) * (1 - alpha * (me X i j0 - me A i j0))); [ring|].
+  rewrite H. ring.
+Qed.
+
+(* a rank-1 matrix u v^T is reproduced exactly by one cross from X = 0 at any non-zero pivot *)
+Lemma aca_rank1 (u v : nat -> R) n m i j0 alpha a b :
+  let A := Model.mkmat R n m (fun p q => u p * v q) in
+  let X := Model.mkmat R n m (fun _ _ => 0) in
+  alpha * aca_E_row A X i j0 = 1 ->
+  me (aca_step A X i j0 alpha) a b = me A a b.
+Proof.
+  unfold Model.aca_step, Model.aca_E_row, Model.aca_col; simpl. intros H.
+  transitivity (u a * v b * (alpha * (0 - u i * v j0))); [ring|]. rewrite H. ring.
+Qed.
+
+End RingProofs.
